@@ -3,6 +3,8 @@
 package sml
 
 import (
+	"unicode/utf8"
+
 	"github.com/wolimst/lib-secs2-hsms-go/pkg/ast"
 	rt "github.com/wolimst/lib-secs2-hsms-go/pkg/zzverifrt"
 )
@@ -75,6 +77,9 @@ var zzSeqSpecs = []string{
 	`!S1F1|!H->E~<~!A|"x"~>|s1f2|!W~.`,
 	`!S1F1|!H->E~<~!A|"x"~>|*|.`,
 	`!S1F1~<~!L~<~!U1|1~>|x~>|<~!B|2~>~.`,
+	// a '.' glued to the message name belongs to the name: whatever follows, the verdict is the same
+	`!S9F9|!W|Z.`,
+	`!S1F13|!W|!H->E|Establish.|S1F14|.`,
 }
 
 func zzJoin(s *zzSeq, sep []string, tok []string) string {
@@ -85,13 +90,16 @@ func zzJoin(s *zzSeq, sep []string, tok []string) string {
 	return out + sep[len(tok)]
 }
 
-// zzPositions gives line and column (as the lexer defines them: 1 + LFs before, 1 + bytes
-// since the last LF; all layout bytes are ASCII) of every token start and of the end of input.
+// zzPositions gives line and column (as the lexer defines them: 1 + LFs before, 1 + characters
+// since the last LF) of every token start and of the end of input.
 func zzPositions(sep []string, tok []string) (lines, cols []int) {
 	line, col := 1, 1
 	adv := func(x string) {
-		for i := 0; i < len(x); i++ {
-			nl := x[i] == '\n'
+		// columns count characters as the lexer decodes them (an invalid byte is one character)
+		for len(x) > 0 {
+			r, size := utf8.DecodeRuneInString(x)
+			x = x[size:]
+			nl := r == '\n'
 			line += rt.Ite(nl, 1, 0)
 			col = rt.Ite(nl, 1, col+1)
 		}
